@@ -263,7 +263,8 @@ void judge_calls(hep::vegas_pdf<T> const& pdf, std::vector<CallRec> const& log, 
             if (!(c.x[i] >= T(0) && c.x[i] <= T(1))) viol("point-outside-unit-interval", J(info).f("x", c.x[i]));
             // one rounding error of slack on the interpolation l + t*(r-l)
             T slack = T(2) * std::numeric_limits<T>::epsilon() * std::fmax(std::fabs(l), std::fabs(rr));
-            if (!(c.x[i] >= l - slack && c.x[i] <= rr + slack))
+            // x = left + t * width with t in [0,1): exactly never left of the bin; one rounding error of slack on the right
+            if (!(c.x[i] >= l && c.x[i] <= rr + slack))
                 viol("point-outside-bin", J(info).u("dim", i).u("bin", c.bin[i]).f("x", c.x[i]).f("left", l).f("right", rr));
             wref *= (LD)bins * ((LD)rr - (LD)l);
         }
@@ -412,8 +413,8 @@ void in_run_mpi(Rng& rng)
 
 void in_run(Rng& rng, bool scripted)
 {
-    static const std::size_t bin_choices[] = {2, 3, 5, 8, 16, 32, 128};
-    std::size_t bins = bin_choices[rng.below(7)];
+    static const std::size_t bin_choices[] = {2, 3, 5, 8, 16, 32, 128, 37, 100};
+    std::size_t bins = bin_choices[rng.below(9)];
     std::size_t dims = rng.range(1, 3);
     T alpha = rng.below(2) ? T(1.5) : T(3 * rng.u01l());
     RunState r;
@@ -499,7 +500,7 @@ void icdf_one(Rng& rng)
             if (bin[i] >= bins) { viol(which == 1 ? "bin-index-out-of-range:u=1" : "bin-index-out-of-range:u=0", info); return; }
             T l = pdf.bin_left(i, bin[i]), r = pdf.bin_left(i, bin[i] + 1);
             T slack = T(2) * std::numeric_limits<T>::epsilon() * std::fmax(std::fabs(l), std::fabs(r));
-            if (!(x[i] >= l - slack && x[i] <= r + slack)) viol("point-outside-bin", info);
+            if (!(x[i] >= l && x[i] <= r + slack)) viol("point-outside-bin", info);
             wref *= (LD)bins * ((LD)r - (LD)l);
         }
         // a weight outside the range of T is legitimately 0 / denormal / inf: not judged
